@@ -475,6 +475,9 @@ class SimQueue:
             s.log("put", s.cur.tid, id_of(item))
         self._q.append(item)
         self._unfinished += 1
+        if s is not None:
+            # the caller may be pre-empted right after the item is visible
+            s.yield_("q.put.done")
 
     def put_nowait(self, item) -> None:
         self.put(item, block=False)
